@@ -9,6 +9,14 @@ import GnarkVerif.Props.C12_gen_bw6_761
 import GnarkVerif.Props.C12_gen_secp256k1
 import GnarkVerif.Props.C12_gen_stark_curve
 import GnarkVerif.Props.C12_gen_grumpkin
+import GnarkVerif.Props.C12_gen_eddsa_bn254
+import GnarkVerif.Props.C12_gen_eddsa_bls12_377
+import GnarkVerif.Props.C12_gen_eddsa_bls12_381
+import GnarkVerif.Props.C12_gen_eddsa_bandersnatch
+import GnarkVerif.Props.C12_gen_eddsa_bls24_315
+import GnarkVerif.Props.C12_gen_eddsa_bls24_317
+import GnarkVerif.Props.C12_gen_eddsa_bw6_633
+import GnarkVerif.Props.C12_gen_eddsa_bw6_761
 /-
 C12 tie T (signature verifiers): see Props/C12_gen_<curve>.lean and Proofs/SigGen.lean. This root module only collects the instances.
 -/
